@@ -550,6 +550,7 @@ func (c *Client) closeWithError(err error) {
 
 	c.mutex.Lock()
 	c.state = imap.ConnStateLogout
+	c.mailbox = nil
 	pendingCmds := c.pendingCmds
 	c.pendingCmds = nil
 	c.readDone = true
